@@ -481,6 +481,19 @@ def standard_proof_phase(rep, pid, needed_files, extra_trusted=()):
     else:
         for n in names or ["Props/%s.v" % pid]:
             rep.obligation("theorem %s" % n, False, _excerpt(log, "Props/" + pid) or "Props/%s.vo not built (a dependency failed): %s" % (pid, bad))
+    if rep.tier == "thorough" and all(vo_ok("Props/" + pf) for pf in prop_files(pid)):
+        # independent re-check of the compiled files (and everything they depend on) with coqchk
+        mods = ["OPF.Props." + pf for pf in prop_files(pid)]
+        t0 = time.time()
+        rc2, out2 = sh(["coqchk", "-silent", "-o", "-Q", os.path.join(COQ, "theories"), "OPF"] + mods, timeout=3000)
+        summ = out2[out2.find("CONTEXT SUMMARY"):] if "CONTEXT SUMMARY" in out2 else out2[-1500:]
+        axs = re.findall(r"^\s{4}([A-Za-z_][A-Za-z0-9_.']*)\s*$", summ, flags=re.M)
+        clean = all(("%s: <none>" % k) in summ for k in ("relying on type-in-type", "relying on unsafe (co)fixpoints", "whose positivity is assumed"))
+        bad2 = [a for a in axs if a.split(".")[-1] not in {y.split(".")[-1] for y in ALLOWED_AXIOMS}
+                and not a.startswith(("Coq.Floats", "Coq.Numbers.Cyclic.Int63", "Coq.Reals", "Coq.Logic"))]
+        rep.obligation("coqchk re-checks %s (%.0f s; axioms: %s)" % (", ".join(mods), time.time() - t0, ", ".join(axs) or "none"),
+                       rc2 == 0 and clean and not bad2, summ[-1500:] if (rc2 or not clean or bad2) else "")
+        rep.extra["coqchk_axioms"] = axs
     rep.trusted += ["Coq 8.16.1 kernel + vm_compute (no native_compute)", "bin/build (coq_makefile full .vo build)",
                     "harness/common.py (case-file emission, output parsing, rank/IEEE order encoding)"] + list(extra_trusted)
 
